@@ -225,6 +225,13 @@ func (bcR *BlockchainReactor) ReceiveEnvelope(e p2p.Envelope) {
 		}, bcR.Logger)
 	case *bcproto.StatusResponse:
 		// Got a peer status. Unverified.
+		// A message of a peer that has been stopped can still be on its way here
+		// when RemovePeer has already run. It must not bring the peer back into the
+		// pool: nothing would remove it again, and its height would keep
+		// IsCaughtUp false for ever.
+		if !e.Src.IsRunning() {
+			return
+		}
 		bcR.pool.SetPeerRange(e.Src.ID(), msg.Base, msg.Height)
 	case *bcproto.NoBlockResponse:
 		bcR.Logger.Debug("Peer does not have requested block", "peer", e.Src, "height", msg.Height)
